@@ -1,6 +1,7 @@
 """C09 - source rewriting changes nothing except the recurse/call_next call sites."""
 
 import ast
+import re
 
 from .. import anchors as A
 from ..cfg import all_stmts
@@ -225,6 +226,29 @@ def r3_each_argument_once(ctx):
         f"the temporary is assigned `{short(val, 40) if val is not None else '?'}`: nested recurse/call_next calls inside an argument are not rewritten, or the argument is not the helper's own",
     )
     ctx.ob(f"{vc.key}:temp:store-name", vc.loc(ne), "the temporary is a Store of a name built from the call-site prefix and the argument's key", store_tpl is not None and is_store and f"§{keyp}§" in store_tpl, "the temporary's name does not depend on the argument's key: two arguments share one temporary")
+    # the prefix of the temporaries is fresh for every rewritten call site
+    pref = None
+    if store_tpl:
+        m0 = re.match(r"§(\w+)§", store_tpl)
+        pref = m0.group(1) if m0 else None
+    pdefs = [s for s in vc.node.body if isinstance(s, ast.Assign) and any(dotted(t) == pref for t in s.targets)] if pref else []
+    fresh = False
+    if len(pdefs) == 1:
+        tpl = str_value(pdefs[0].value) or ""
+        m1 = re.search(r"§next\((\w+)\.(\w+)\)§", tpl)
+        if m1 and m1.group(1) == rv:
+            init = rw.methods.get("__init__")
+            fresh = init is not None and any(
+                isinstance(s, ast.Assign) and any(is_self_attr(t, m1.group(2), selfname=recv_name(init)) for t in s.targets) and isinstance(s.value, ast.Call) and call_name(s.value) in ("count", "itertools.count")
+                for s in ast.walk(init.node)
+            )
+    ctx.ob(
+        f"{vc.key}:temp:fresh-prefix",
+        vc.loc(pdefs[0]) if pdefs else vc.loc(),
+        "the temporaries of each rewritten call site carry a prefix drawn from a per-method counter (no two call sites share temporaries)",
+        fresh,
+        f"`{short(pdefs[0], 60) if pdefs else '?'}`: the temporaries' prefix is not unique per call site: a recurse/call_next call nested in an argument of another one overwrites the outer call's temporaries after its types were taken, and the selected method runs on the inner call's arguments",
+    )
     # calls of the helper: positionals over enumerate(node.args), keywords over node.keywords
     calls = [c for c in ast.walk(vc.node) if isinstance(c, ast.Call) and isinstance(c.func, ast.Name) and c.func.id == helper.name]
     pos_calls, kw_calls = [], []
@@ -395,15 +419,63 @@ def r6_only_outer_decorators(ctx):
         )
 
 
+def r7_own_code_object(ctx):
+    """The code object handed to FunctionType must be the method's own: among the code constants of the compiled
+    definition it is the LAST one (code objects of lambdas / comprehensions in the defaults come before it)."""
+    rc = A.recompiler(ctx.repo)
+    ctx.touch(rc)
+    ft = [c for c in ast.walk(rc.node) if isinstance(c, ast.Call) and call_name(c) in ("FunctionType", "types.FunctionType")]
+    ctx.require(ft, f"{rc.key}: no FunctionType construction")
+    code_name = dotted(ft[0].args[0]) if ft[0].args else None
+    ctx.require(code_name, f"{rc.key}: the code object is not passed by name")
+    picks = []
+    for st in all_stmts(rc.node):
+        if not isinstance(st, ast.Assign):
+            continue
+        tgt = st.targets[0]
+        v = st.value
+        sel = None
+        if isinstance(tgt, (ast.Tuple, ast.List)) and any(dotted(e) == code_name for e in tgt.elts if not isinstance(e, ast.Starred)):
+            # (*_, new_code) = [...]: last;  (new_code, *_) = [...]: first
+            idx = [i for i, e in enumerate(tgt.elts) if not isinstance(e, ast.Starred) and dotted(e) == code_name][0]
+            has_star_before = any(isinstance(e, ast.Starred) for e in tgt.elts[:idx])
+            sel = "last" if has_star_before and idx == len(tgt.elts) - 1 else ("only" if len(tgt.elts) == 1 else "not-last")
+        elif isinstance(tgt, ast.Name) and tgt.id == code_name and isinstance(v, ast.Subscript) and not isinstance(v.slice, ast.Slice):
+            k = v.slice
+            if isinstance(k, ast.UnaryOp) and isinstance(k.op, ast.USub) and isinstance(k.operand, ast.Constant) and k.operand.value == 1:
+                sel = "last"
+            elif isinstance(k, ast.Constant) and isinstance(k.value, int):
+                sel = "not-last"
+        if sel and any(isinstance(x, ast.Attribute) and x.attr == "co_consts" for x in ast.walk(v)):
+            picks.append((st, sel))
+    ctx.require(picks, f"{rc.key}: could not find where `{code_name}` is taken from the compiled constants")
+    for st, sel in picks:
+        ctx.ob(
+            f"{rc.key}:own-code:{sel}",
+            rc.loc(st),
+            f"`{short(st, 60)}` takes the last code constant of the compiled definition (the method's own code)",
+            sel in ("last",),
+            f"`{short(st, 60)}` does not take the last code constant: when a default value is a lambda (or contains a comprehension) its code object comes first, and the registered method becomes that lambda's body",
+        )
+
+
 def r1(ctx):
     copy_carries_everything(ctx)
 
 
+def r8_symbols_found_wherever_they_live(ctx):
+    from .c08 import r1_self_references_found
+
+    r1_self_references_found(ctx)
+
+
 RULES = [
+    ("C09.R8", "P1", r8_symbols_found_wherever_they_live, "recurse / call_next are found in globals, closure cells and nested code"),
     ("C09.R1", "P1", r1, "a copy carries everything"),
     ("C09.R2", "P1", r2_positions_survive, "positions survive"),
     ("C09.R3", "P1", r3_each_argument_once, "each argument once, in order"),
     ("C09.R4", "P1", r4_call_shapes, "every call shape is handled or left alone"),
     ("C09.R5", "P1", r5_walrus_placement, "no walrus where Python forbids one"),
     ("C09.R6", "P1", r6_only_outer_decorators, "only the outer decorators are dropped"),
+    ("C09.R7", "P1", r7_own_code_object, "the recompiled code object is the method's own"),
 ]
